@@ -292,8 +292,25 @@ def union(ctx):
         ok = len(calls) == 1 and ast.unparse(calls[0].args[0]) == "self.select()" and {k.arg: ast.unparse(k.value) for k in calls[0].keywords} == {"transformed": "transformed", "with_stroke": "with_stroke"}
         ctx.ob("R08.3", "%s.bbox[all flattened descendants]" % cname, ok, "", fn.lineno, "a container's box is the union over all of its flattened descendants")
         sel = ctx.fn("%s.select" % cname, "R08.3")
-        src = ast.unparse(sel)
-        ctx.ob("R08.3", "%s.select[recurses into containers]" % cname, "isinstance(subitem, (Group, Use))" in src and "subitem.select(conditional)" in src, "", sel.lineno,
+        # for <child> in self: ... a nested Group and a nested Use are both descended into, with the caller's condition
+        rec = []
+        for lp in [x for x in ast.walk(sel) if isinstance(x, ast.For) and isinstance(x.target, ast.Name)]:
+            v = lp.target.id
+            for c in ast.walk(lp):
+                if isinstance(c, ast.Call) and isinstance(c.func, ast.Attribute) and c.func.attr == "select" and isinstance(c.func.value, ast.Name) and c.func.value.id == v:
+                    cond = sel.args.args[1].arg if len(sel.args.args) > 1 else None
+                    passes = any(isinstance(a, ast.Name) and a.id == cond for a in list(c.args) + [k.value for k in c.keywords])
+                    kinds = set()
+                    p_ = getattr(c, "_parent", None)
+                    while p_ is not None and p_ is not lp:
+                        if isinstance(p_, ast.If):
+                            for t in ast.walk(p_.test):
+                                if isinstance(t, ast.Call) and call_name(t) == "isinstance" and len(t.args) == 2 and isinstance(t.args[0], ast.Name) and t.args[0].id == v:
+                                    kinds |= {n.id for n in ast.walk(t.args[1]) if isinstance(n, ast.Name)}
+                        p_ = getattr(p_, "_parent", None)
+                    rec.append((passes, kinds))
+        ok = any(passes and {"Group", "Use"} <= kinds for passes, kinds in rec) or ({"Group", "Use"} <= set().union(*[k for p_, k in rec if p_]) if rec else False)
+        ctx.ob("R08.3", "%s.select[recurses into containers]" % cname, ok, str([(p_, sorted(k)) for p_, k in rec]), sel.lineno,
                "descendants of nested groups and uses are included")
 
 
